@@ -85,22 +85,28 @@ theorem C01_lossless (env : Env) (F : FontMeta) (hd : InDomain F) (hc : Canonica
     merge (codec (derive env F)) = F := by
   rw [read_write env F hd]; exact lossless F hc
 
-/-- The normal form is a normal form: normalising twice changes nothing (proved for
-usWidthClass ≤ 9; see `C01_nf_idem_full`). -/
-theorem C01_nf_idem_partial (F : FontMeta) (h : InDomain F) (hw : F.width ≤ 9) : nf (nf F) = nf F :=
-  nf_idem F h hw
+/-- The normal form is a normal form: normalising twice changes nothing (every width class:
+classes outside 0..9 print as "Width(n)" in `Subfamily()`, which contains none of the words the
+reader looks for). -/
+theorem C01_nf_idem (F : FontMeta) (h : InDomain F) : nf (nf F) = nf F :=
+  nf_idem F h
 
-/-- the statement without the width-class restriction (not proved: the string lemmas about
-`Subfamily()` are finite case analyses over the nine named width classes; `Width(%d)` is covered
-by the correspondence streams only) -/
-def C01_nf_idem_full : Prop := ∀ F : FontMeta, InDomain F → nf (nf F) = nf F
-
-/-- For every accepted table set the decoders can return, outside the classes listed in `Stable`
-(Proofs/FontFixedPoint.lean), one write/read cycle is a fixed point: the re-read font equals the
-first-read font. -/
+/-- For every accepted table set the decoders can return (`Decoded`: records are codec fixed
+points with fields in the range of their binary field) that lies in none of the open finding
+classes (`Stable`: C01-bold-word, C01-no-post-underline, C01-no-hmtx-widths / -cff-widths; a file
+with post and hmtx tables can only fail the first), one write/read cycle is a fixed point: the
+re-read font equals the first-read font. -/
 theorem C01_fixed_point_partial (env : Env) (T : Tables) (hacc : readErr T = none) (hd : Decoded T)
     (hs : Stable T) : merge (codec (derive env (merge T))) = merge T :=
   fixed_point env T hacc hd hs
+
+/-- … in particular for every accepted file that has the post and hmtx tables `Write` always emits,
+unless its `Subfamily()` says "Bold" while IsBold is clear. -/
+theorem C01_fixed_point_complete_files (env : Env) (T : Tables) (hacc : readErr T = none) (hd : Decoded T)
+    (hpost : T.post.isSome = true) (hhmtx : hmtxWidths T ≠ [])
+    (hbold : boldWord (subfamily (merge T)) = true → (merge T).isBold = true) :
+    merge (codec (derive env (merge T))) = merge T :=
+  fixed_point env T hacc hd ⟨hbold, Or.inl hpost, Or.inl hhmtx⟩
 
 /-- the property as stated: every accepted file -/
 def C01_fixed_point_full : Prop :=
@@ -129,6 +135,14 @@ def boldWitness : Tables :=
 theorem C01_bold_witness_decoded : Decoded boldWitness where
   codecFixed := by decide
   revision := by intro h hh; cases hh; decide
+  hmtxRange := by
+    intro h hh; cases hh
+    intro w hw
+    simp only [List.mem_cons, List.not_mem_nil, or_false] at hw
+    rcases hw with rfl | rfl <;> exact ⟨by decide, by decide⟩
+  postRange := by intro p hp; cases hp; exact ⟨⟨by decide, by decide⟩, ⟨by decide, by decide⟩⟩
+  cffAngle := by intro c hc; cases hc
+  caretRange := by intro h hh; cases hh; exact ⟨by decide, by decide⟩
   cffWidths := by intro l hl; cases hl
 
 /-- The unrestricted statement is false on the code as it is: the witness is read with
@@ -190,10 +204,10 @@ example : InDomain exFont := by decide
 example : nf exFont ≠ exFont := by decide
 example : (nf exFont).version = 80937 ∧ (nf exFont).isBold = true ∧ (nf exFont).capHeight = 700 ∧
     (nf exFont).modificationTime = Time.zero ∧ (nf exFont).permUse = 0 ∧ (nf exFont).isScript = false := by decide
-example : nf (nf exFont) = nf exFont := C01_nf_idem_partial exFont (by decide) (by decide)
-example : InDomain (nf exFont) ∧ (nf exFont).width ≤ 9 := by decide
+example : nf (nf exFont) = nf exFont := C01_nf_idem exFont (by decide)
+example : InDomain (nf exFont) := by decide
 /-- the normal form of the example is canonical, so `C01_lossless` applies to a non-trivial value -/
-example : Canonical (nf exFont) := canonical_nf exFont (by decide) (by decide)
+example : Canonical (nf exFont) := canonical_nf exFont (by decide)
 example : readErr boldWitness = none := by decide
 
 /-- the same table set with the BOLD bit set (and REGULAR clear): inside every hypothesis of
@@ -208,22 +222,19 @@ example : readErr goodTables = none := by decide
 example : Decoded goodTables where
   codecFixed := by decide
   revision := by intro h hh; cases hh; decide
+  hmtxRange := by
+    intro h hh; cases hh
+    intro w hw
+    simp only [List.mem_cons, List.not_mem_nil, or_false] at hw
+    rcases hw with rfl | rfl <;> exact ⟨by decide, by decide⟩
+  postRange := by intro p hp; cases hp; exact ⟨⟨by decide, by decide⟩, ⟨by decide, by decide⟩⟩
+  cffAngle := by intro c hc; cases hc
+  caretRange := by intro h hh; cases hh; exact ⟨by decide, by decide⟩
   cffWidths := by intro l hl; cases hl
+/-- it has post and hmtx tables and the BOLD bit, so it is in none of the finding classes -/
 example : Stable goodTables where
   bold := by decide
-  widthClass := by decide
-  angle := ⟨by decide, by decide⟩
-  ulPos := ⟨-75, by decide, by decide, by decide⟩
-  ulThick := ⟨50, by decide, by decide, by decide⟩
-  widths := by
-    intro w hw
-    have : w = Dy.ofInt 500 ∨ w = Dy.ofInt 600 := by
-      have h2 : (merge goodTables).outline.widthList = [Dy.ofInt 500, Dy.ofInt 600] := by decide
-      rw [h2] at hw
-      simpa using hw
-    rcases this with rfl | rfl
-    · exact ⟨500, rfl, by decide, by decide⟩
-    · exact ⟨600, rfl, by decide, by decide⟩
-  widthsNone := by decide
+  underline := Or.inl (by decide)
+  widths := Or.inl (by decide)
 
 end SfntV.Props.C01
